@@ -16,7 +16,7 @@ import (
 
 func init() {
 	PropertyText["C10"] = [2]string{
-		"Decides, over every module function reachable from body processing, post-processing, extraction, seencheck and URL normalisation (scope S): calls into the third-party decoders that have been seen to panic on malformed input are wrapped by a deferred recover that turns the panic into the extractor's error (R-PANIC-CONTAIN); every index, slice and single-result type assertion is discharged by a dominating length/discriminator guard, a range bound, a Split-family non-emptiness fact or the capture-group count of the resolved constant regexp — anything else must be in the reviewed table (R-INDEX, R-ASSERT); explicit panics are conditioned on pipeline invariants, not on server-derived values (R-PANIC-SITES); every loop whose condition reads loop-carried variables changes one of them on every path back to its head, and recursion descends into strictly smaller structure (R-LOOP-PROGRESS, R-DELETE-ADVANCE, R-QUERY-PAIRWISE progress); every method call on the cgo URL handle — also deferred or inside a deferred closure — has a receiver that is the result of a successful parse on every path (R-NIL-HANDLE).",
+		"Decides, over every module function reachable from body processing, post-processing, extraction, seencheck and URL normalisation (scope S): calls into the third-party decoders that have been seen to panic on malformed input are wrapped by a deferred recover that turns the panic into the extractor's error (R-PANIC-CONTAIN); every index, slice and single-result type assertion is discharged by a dominating length/discriminator guard, a range bound, a Split-family non-emptiness fact or the capture-group count of the resolved constant regexp — anything else must be in the reviewed table (R-INDEX, R-ASSERT); explicit panics are conditioned on pipeline invariants, not on server-derived values (R-PANIC-SITES); every loop whose condition reads loop-carried variables changes one of them on every path back to its head, and recursion descends into strictly smaller structure (R-LOOP-PROGRESS, R-DELETE-ADVANCE, R-QUERY-PAIRWISE progress); every method call on the cgo URL handle — also deferred or inside a deferred closure — has a receiver that is the result of a successful parse on every path (R-NIL-HANDLE). Loops driven by a decoder or reader leave on its error — no way round without `err == nil` (reader-loop clause).",
 		"Not decided: panics, quadratic blow-ups or hangs inside the trusted decoders (std-lib, x/net/html, goquery, fasturl, xurls — fuzzed once without findings) and the cgo URL parser; memory exhaustion; regexp backtracking (Go's RE2 is linear).",
 	}
 	register(&core.Rule{ID: "R-PANIC-CONTAIN", Props: []string{"C10"}, Doc: "every call from scope S into pdfcpu or grafov/m3u8 (decoders with known panics on malformed input) sits in a function that defers a closure calling recover() and assigning its error result; other third-party packages called from S with body-derived data must be in the reviewed trusted table", Run: rulePanicContain})
